@@ -5,12 +5,15 @@ package interceptedBlocks_test
 
 import (
 	"bytes"
+	"errors"
+	"fmt"
 	"math"
 	"math/big"
 	"testing"
 
 	"github.com/ElrondNetwork/elrond-go/config"
 	"github.com/ElrondNetwork/elrond-go/core"
+	"github.com/ElrondNetwork/elrond-go/data"
 	"github.com/ElrondNetwork/elrond-go/data/block"
 	"github.com/ElrondNetwork/elrond-go/hashing/blake2b"
 	"github.com/ElrondNetwork/elrond-go/marshal"
@@ -100,7 +103,83 @@ const verifC18NumShards = 3
 var verifC18ChainID = []byte("T")
 var verifC18Version = []byte("v1")
 
-func verifC18HeaderArgs(t interface{ Fatalf(string, ...interface{}) }, m marshal.Marshalizer, buff []byte) *interceptedBlocks.ArgInterceptedBlockHeader {
+// verifC18HdrSigModel models the three signatures of a header the way process/headerCheck.HeaderSigVerifier checks
+// them: the aggregated signature is over the header with Signature, PubKeysBitmap and LeaderSignature removed
+// (copyHeaderWithoutSig) and is verified together with the bitmap; the leader signature is over the header with only
+// LeaderSignature removed (copyHeaderWithoutLeaderSig); the rand seed is the leader's signature over PrevRandSeed (the
+// leader being a function of PrevRandSeed, round, shard and epoch). Verification succeeds exactly for the triples the
+// harness registered from headers it generated itself.
+type verifC18HdrSigModel struct {
+	valid       map[string]struct{}
+	whiteListed bool // the header was requested by this node (CheckBlockAgainstWhitelist)
+}
+
+func verifC18NewHdrSigModel(whiteListed bool) *verifC18HdrSigModel {
+	return &verifC18HdrSigModel{valid: map[string]struct{}{}, whiteListed: whiteListed}
+}
+
+func verifC18HdrSigKeys(h data.HeaderHandler) (agg, leader, rnd string, err error) {
+	m := &marshal.GogoProtoMarshalizer{}
+	noSig := h.Clone()
+	noSig.SetSignature(nil)
+	noSig.SetPubKeysBitmap(nil)
+	noSig.SetLeaderSignature(nil)
+	b1, err := m.Marshal(noSig)
+	if err != nil {
+		return "", "", "", err
+	}
+	noLeader := h.Clone()
+	noLeader.SetLeaderSignature(nil)
+	b2, err := m.Marshal(noLeader)
+	if err != nil {
+		return "", "", "", err
+	}
+	agg = fmt.Sprintf("agg|%x|%x|%x", b1, h.GetPubKeysBitmap(), h.GetSignature())
+	leader = fmt.Sprintf("leader|%x|%x", b2, h.GetLeaderSignature())
+	rnd = fmt.Sprintf("rand|%x|%d|%d|%d|%x", h.GetPrevRandSeed(), h.GetRound(), h.GetShardID(), h.GetEpoch(), h.GetRandSeed())
+	return agg, leader, rnd, nil
+}
+
+func (s *verifC18HdrSigModel) register(h data.HeaderHandler) error {
+	agg, leader, rnd, err := verifC18HdrSigKeys(h)
+	if err != nil {
+		return err
+	}
+	s.valid[agg], s.valid[leader], s.valid[rnd] = struct{}{}, struct{}{}, struct{}{}
+	return nil
+}
+
+var errVerifC18HdrSig = errors.New("verif: header signature does not verify")
+
+func (s *verifC18HdrSigModel) verifier() *mock.HeaderSigVerifierStub {
+	has := func(k string) error {
+		if _, ok := s.valid[k]; ok {
+			return nil
+		}
+		return errVerifC18HdrSig
+	}
+	return &mock.HeaderSigVerifierStub{
+		VerifySignatureCalled: func(h data.HeaderHandler) error {
+			agg, _, _, err := verifC18HdrSigKeys(h)
+			if err != nil {
+				return err
+			}
+			return has(agg)
+		},
+		VerifyRandSeedAndLeaderSignatureCalled: func(h data.HeaderHandler) error {
+			_, leader, rnd, err := verifC18HdrSigKeys(h)
+			if err != nil {
+				return err
+			}
+			if err = has(rnd); err != nil {
+				return err
+			}
+			return has(leader)
+		},
+	}
+}
+
+func verifC18HeaderArgs(t interface{ Fatalf(string, ...interface{}) }, sm *verifC18HdrSigModel, m marshal.Marshalizer, buff []byte) *interceptedBlocks.ArgInterceptedBlockHeader {
 	iv, err := headerCheck.NewHeaderIntegrityVerifier(verifC18ChainID,
 		[]config.VersionByEpochs{{StartEpoch: 0, Version: "v1"}, {StartEpoch: 1000, Version: "*"}}, "default", testscommon.NewCacherMock())
 	if err != nil {
@@ -113,10 +192,12 @@ func verifC18HeaderArgs(t interface{ Fatalf(string, ...interface{}) }, m marshal
 		Marshalizer:             m,
 		Hasher:                  blake2b.NewBlake2b(),
 		ShardCoordinator:        coord,
-		HeaderSigVerifier:       &mock.HeaderSigVerifierStub{}, // accepts: the signatures cover the re-encoded header, identical for equal content
+		HeaderSigVerifier:       sm.verifier(),
 		HeaderIntegrityVerifier: iv,
-		ValidityAttester:        &mock.ValidityAttesterStub{},
-		EpochStartTrigger:       &mock.EpochStartTriggerStub{},
+		// requested headers are white-listed by the interceptors (hash, shard-nonce and epoch identifiers): a modified
+		// copy of a requested header is white-listed as well
+		ValidityAttester:  &mock.ValidityAttesterStub{CheckBlockAgainstWhitelistCalled: func(process.InterceptedData) bool { return sm.whiteListed }},
+		EpochStartTrigger: &mock.EpochStartTriggerStub{},
 	}
 }
 
@@ -127,10 +208,10 @@ func verifC18Outcomes(hash []byte, content interface{}, err error) verifC18Outco
 	return verifC18Outcome{Accepted: true, Hash: hash, Content: content}
 }
 
-func verifC18HeaderTarget(t interface{ Fatalf(string, ...interface{}) }) *verifC18Target {
-	return &verifC18Target{Name: "header", Schema: verifC18HeaderSchema,
+func verifC18HeaderTarget(t interface{ Fatalf(string, ...interface{}) }, sm *verifC18HdrSigModel) *verifC18Target {
+	return &verifC18Target{Name: "header", Schema: verifC18HeaderSchema, SigFields: []int{4, 5, 11, 12}, // RandSeed, PubKeysBitmap, Signature, LeaderSignature
 		Intercept: func(b []byte, m marshal.Marshalizer) verifC18Outcome {
-			ih, err := interceptedBlocks.NewInterceptedHeader(verifC18HeaderArgs(t, m, b))
+			ih, err := interceptedBlocks.NewInterceptedHeader(verifC18HeaderArgs(t, sm, m, b))
 			if err != nil {
 				return verifC18Outcomes(nil, nil, err)
 			}
@@ -141,10 +222,10 @@ func verifC18HeaderTarget(t interface{ Fatalf(string, ...interface{}) }) *verifC
 		}}
 }
 
-func verifC18MetaTarget(t interface{ Fatalf(string, ...interface{}) }) *verifC18Target {
-	return &verifC18Target{Name: "metaheader", Schema: verifC18MetaBlockSchema,
+func verifC18MetaTarget(t interface{ Fatalf(string, ...interface{}) }, sm *verifC18HdrSigModel) *verifC18Target {
+	return &verifC18Target{Name: "metaheader", Schema: verifC18MetaBlockSchema, SigFields: []int{7, 8, 9, 12}, // Signature, LeaderSignature, PubKeysBitmap, RandSeed
 		Intercept: func(b []byte, m marshal.Marshalizer) verifC18Outcome {
-			ih, err := interceptedBlocks.NewInterceptedMetaHeader(verifC18HeaderArgs(t, m, b))
+			ih, err := interceptedBlocks.NewInterceptedMetaHeader(verifC18HeaderArgs(t, sm, m, b))
 			if err != nil {
 				return verifC18Outcomes(nil, nil, err)
 			}
@@ -156,7 +237,7 @@ func verifC18MetaTarget(t interface{ Fatalf(string, ...interface{}) }) *verifC18
 }
 
 func verifC18MiniblockTarget() *verifC18Target {
-	return &verifC18Target{Name: "miniblock", Schema: verifC18MiniBlockSchema, Skip: []string{"bigint-noncanonical"},
+	return &verifC18Target{Name: "miniblock", Schema: verifC18MiniBlockSchema, Skip: []string{"bigint-noncanonical", "content-forged"}, // a miniblock carries no signature: any changed miniblock is another valid miniblock
 		Intercept: func(b []byte, m marshal.Marshalizer) verifC18Outcome {
 			coord := mock.NewMultiShardsCoordinatorMock(verifC18NumShards)
 			coord.CurrentShard = 1
@@ -388,26 +469,48 @@ const verifC18Rule = "a valid random value is marshalled (canonical bytes b0) an
 	"non-trivial = b1 != b0, both accepted, decoded content Equal (or, for a changed value, both accepted with different content); distinct by (class, marshalizer, b1)"
 
 func TestVerifC18_Header(t *testing.T) {
-	tg := verifC18HeaderTarget(t)
 	m := &marshal.GogoProtoMarshalizer{}
 	kit.Run(t, "C18", kit.Budget{Quick: 6000, Thorough: 80000}, "shard header: "+verifC18Rule, func(rt *rapid.T, c *kit.Case) {
-		b0, err := m.Marshal(verifC18GenHeader(rt))
+		h := verifC18GenHeader(rt)
+		b0, err := m.Marshal(h)
 		if err != nil {
 			rt.Fatalf("fixture: marshal: %v", err)
 		}
-		verifC18RunCase(rt, c, tg, b0, nil)
+		sm := verifC18NewHdrSigModel(rapid.Bool().Draw(rt, "whiteListed"))
+		if err = sm.register(h); err != nil {
+			rt.Fatalf("fixture: signed content: %v", err)
+		}
+		authorise := func(b []byte) bool {
+			other := &block.Header{}
+			return m.Unmarshal(other, b) == nil && sm.register(other) == nil
+		}
+		if sm.whiteListed {
+			c.Class("header:white-listed")
+		}
+		verifC18RunCase(rt, c, verifC18HeaderTarget(rt, sm), b0, authorise)
 	})
 }
 
 func TestVerifC18_MetaHeader(t *testing.T) {
-	tg := verifC18MetaTarget(t)
 	m := &marshal.GogoProtoMarshalizer{}
 	kit.Run(t, "C18", kit.Budget{Quick: 6000, Thorough: 80000}, "meta header: "+verifC18Rule, func(rt *rapid.T, c *kit.Case) {
-		b0, err := m.Marshal(verifC18GenMeta(rt))
+		h := verifC18GenMeta(rt)
+		b0, err := m.Marshal(h)
 		if err != nil {
 			rt.Fatalf("fixture: marshal: %v", err)
 		}
-		verifC18RunCase(rt, c, tg, b0, nil)
+		sm := verifC18NewHdrSigModel(rapid.Bool().Draw(rt, "whiteListed"))
+		if err = sm.register(h); err != nil {
+			rt.Fatalf("fixture: signed content: %v", err)
+		}
+		authorise := func(b []byte) bool {
+			other := &block.MetaBlock{}
+			return m.Unmarshal(other, b) == nil && sm.register(other) == nil
+		}
+		if sm.whiteListed {
+			c.Class("metaheader:white-listed")
+		}
+		verifC18RunCase(rt, c, verifC18MetaTarget(rt, sm), b0, authorise)
 	})
 }
 
